@@ -178,6 +178,15 @@ func (c *ctx) value(depth int, orderedMaps bool) any {
 		if rapid.IntRange(0, 5).Draw(c.t, "big") == 0 {
 			n = rapid.IntRange(9, 30).Draw(c.t, "bign")
 		}
+		if orderedMaps && rapid.IntRange(0, 5).Draw(c.t, "stringmap") == 0 {
+			// an ordered map of strings (what an env block is), as a program may put one into a plugin
+			// config or an unknown field
+			ms := ordered.NewMap[string, string](n)
+			for i := 0; i < n; i++ {
+				ms.Set(c.keyStr("msk", i), c.str("msv"))
+			}
+			return ms
+		}
 		if orderedMaps {
 			m := ordered.NewMap[string, any](n)
 			for i := 0; i < n; i++ {
@@ -325,7 +334,7 @@ func TestPropMatrixInterpolation(t *testing.T) {
 		for i, n := 0, rapid.IntRange(0, 3).Draw(t, "nplugins"); i < n; i++ {
 			var cfg any
 			if rapid.Bool().Draw(t, "hascfg") {
-				cfg = c.value(1, false)
+				cfg = c.value(1, rapid.IntRange(0, 3).Draw(t, "orderedcfg") == 0)
 			}
 			step.Plugins = append(step.Plugins, &pipeline.Plugin{Source: c.str("source"), Config: cfg})
 		}
